@@ -48,6 +48,9 @@ for op in OPS:
         else:
             jobs.append(job(jn, en, props=pr))
 
+for op in OPS:
+    # shortcuts with non-terminal operands, point-wise (the operand's value at an arbitrary assignment is a ghost terminal)
+    jobs.append(job('mt_%s_shortcuts_pw' % op, 'lemma_mt_%s_shortcuts_pw' % op, props=['C05']))
 CMP = ['eq', 'ne', 'gt', 'ge', 'lt', 'le']
 CF = 'src/operations/compare.cc'
 EVH = 'src/edge_value.h'
